@@ -28,7 +28,7 @@ Lemma dep_step_all : forall g, pv c d = render c g -> wf_ghost c g ->
 Proof.
   intros g Hpv Hw.
   exact (step_all c reply_ok unforced False Tr Tr2 Tr1 TrG Hc (fun _ _ H => H) (fun _ _ _ => forall_true _)
-                  (fun _ _ _ => I) (fun _ _ _ _ => I) unforced_fd (fun _ _ _ _ _ _ _ _ _ _ => I)
+                  (fun _ _ _ => I) (fun _ _ _ _ => I) unforced_fd (fun _ _ _ _ _ _ _ _ _ _ _ _ _ => I)
                   g d s Hpv (W_true c g Hw) Hnf Ht).
 Qed.
 
@@ -44,7 +44,7 @@ Lemma dep_bounded : t_deps c <> [] -> r_out (step c s d) = Fin OConverged ->
 Proof.
   intros Hd Ho. destruct Hi as (g & Hpv & Hw).
   destruct (step_converged c reply_ok unforced False Tr Tr2 Tr1 TrG Hc (fun _ _ H => H) (fun _ _ _ => forall_true _)
-              (fun _ _ _ => I) (fun _ _ _ _ => I) unforced_fd (fun _ _ _ _ _ _ _ _ _ _ => I)
+              (fun _ _ _ => I) (fun _ _ _ _ => I) unforced_fd (fun _ _ _ _ _ _ _ _ _ _ _ _ _ => I)
               g d s Hpv (W_true c g Hw) Hnf Ht Ho)
     as (p & q & bs & ln & lh & Eg & _ & Hp & _ & _ & _ & Hne & _ & Hdep).
   destruct bs as [|b0 bs']; [congruence|].
